@@ -907,3 +907,65 @@ func rulePartialBothParts(c *Ctx, r *Report) {
 		r.info(rule, "scan/partial.Compound", "-", desc, "no function reads the prefix field of a partial list")
 	}
 }
+
+// ---------------------------------------------------------------------------
+// R-BIND-RESOLVED (C16, C02; added after seed C16f): Env.bind does not unify, it overwrites.  Outside the
+// unifier a built-in may call it only for a variable it has just seen unbound IN THE VERY ENVIRONMENT it binds
+// in: the variable argument of the bind is the result of a Resolve on the same environment value (asserted to
+// Variable), with no unification in between - which is the case exactly when both calls have the same SSA
+// value as their receiver.  A bind in the continuation of another unification (`Unify(elem, e, func(env) {
+// return k(env.bind(n, i)) })`) overwrites whatever that unification has bound the variable to:
+// nth0(N, [5,1,7], N) answers 0, 1 and 2.  (The call-context variable of the VM is rebound on purpose.)
+func ruleBindResolved(c *Ctx, r *Report) {
+	const rule = "R-BIND-RESOLVED"
+	desc := "outside the unifier a variable is bound only in the environment in which it was just resolved unbound"
+	bind := c.method("Env", "bind")
+	resolve := c.method("Env", "Resolve")
+	if bind == nil || resolve == nil {
+		r.undecided(rule, "anchor:Env.bind/Resolve", "-", "locate Env.bind and Env.Resolve", "not found")
+		return
+	}
+	n := 0
+	for _, fn := range c.LibFuncs() {
+		if funcPkg(fn) != c.Engine || recvNamed(topFunc(fn)) == "Env" {
+			continue
+		}
+		k := 0
+		eachInstr(fn, func(in ssa.Instruction) {
+			call, ok := in.(*ssa.Call)
+			if !ok || call.Call.StaticCallee() != bind || len(call.Call.Args) < 3 {
+				return
+			}
+			n++
+			k++
+			key := fmt.Sprintf("%s/bind#%d", fname(fn), k)
+			recv, v := call.Call.Args[0], call.Call.Args[1]
+			// the VM's context variable
+			for _, l := range c.originSet(v) {
+				if ld, ok := l.(*ssa.UnOp); ok && ld.Op == token.MUL {
+					if g, ok := ld.X.(*ssa.Global); ok && g.Name() == "varContext" {
+						r.ok(rule, key, c.at(in), desc, "the call-context variable of the VM, rebound at every call by design", false)
+						return
+					}
+				}
+			}
+			good := false
+			leaves := c.originSet(v) // looks through the type switch that found a Variable
+			good = len(leaves) > 0
+			for _, o := range leaves {
+				rc, ok := o.(*ssa.Call)
+				if !ok || rc.Call.StaticCallee() != resolve || rc.Parent() != fn || !(rc.Call.Args[0] == recv || c.sameVar(rc.Call.Args[0], recv)) {
+					good = false
+				}
+			}
+			if good {
+				r.ok(rule, key, c.at(in), desc, "the variable is the result of Resolve on the same environment value", true)
+			} else {
+				r.bad(rule, key, c.at(in), desc, "the variable was not resolved in the environment it is bound in (a unification may have bound it in between): bind overwrites that binding and the predicate answers tuples outside its relation")
+			}
+		})
+	}
+	if n == 0 {
+		r.info(rule, "scan/bind", "-", desc, "no built-in calls Env.bind directly")
+	}
+}
